@@ -24,6 +24,22 @@ func (check fieldConstraints) CheckFieldPreConstraints(r *FieldRequest, hnd *Val
 
 func (check fieldConstraints) checkValue(v val.Value, t *meta.Type) error {
 	switch t.Format() {
+	case val.FmtLeafRef, val.FmtLeafRefList:
+		// RFC7950 Sec 9.9 - the values of a leafref are the values the leaf it refers to can have
+		target := t.Resolve()
+		if target == nil || target == t {
+			return nil
+		}
+		if v.Format().IsList() && !target.Format().IsList() {
+			var err error
+			val.ForEach(v, func(_ int, item val.Value) {
+				if err == nil {
+					err = check.checkValue(item, target)
+				}
+			})
+			return err
+		}
+		return check.checkValue(v, target)
 	case val.FmtUnion, val.FmtUnionList:
 		// values are in the type of one of the members and have to pass the restrictions
 		// of a member of that type
